@@ -316,11 +316,13 @@ func TestVerif_C02_globals(t *testing.T) {
 			seq = 1
 		}
 		ops := c02Ops(!c.Quick())
-		progs := vsched.PairPrograms("C02", zzResetGlobals, ops[:c02ColdOps], seq)
+		// the cheap, broad programs first: a deadline then cuts the first-use programs only
+		var progs []vsched.Program
 		for _, p := range vsched.PairPrograms("C02", c02Warm, ops, seq) {
 			p.Name = "warm/" + p.Name
 			progs = append(progs, p)
 		}
+		progs = append(progs, vsched.PairPrograms("C02", zzResetGlobals, ops[:c02ColdOps], seq)...)
 		c.Note("globals_programs", len(progs))
 		c.Note("written_package_level_variables", zzWrittenGlobals)
 		vsched.RunBounds(c, "globals", progs, bounds)
